@@ -511,3 +511,40 @@ Section E1S.
     rewrite <- E2. rewrite Hfifo. apply sent_upto_prefix; [rewrite <- Hfifo; exact L2|rewrite <- Hfifo; exact Hpos|]. rewrite <- Hupd. lia.
   Qed.
 End E1S.
+
+(* ================================================================== *)
+(* 4. entity references                                               *)
+(* ================================================================== *)
+
+Section E1ENT.
+  Variables (cfg0 : cfg) (nclients : N).
+
+  (* a delivered mapped event / trigger target names a server entity the client has a mapping for; when the mapped client
+     entity is a replica (alive, marked `Replicated`: it is in the client's structure), it is the replica of THAT server
+     entity: the entity was replicated and visible to this client, with these component kinds, at a moment of the
+     current session whose tick is the client's update tick - not before the stamp of the event *)
+  Theorem e1_entity script slot ops emit e1 g1 os1 e o :
+    let st := ECFrame slot ops emit in
+    escript_ok (script ++ [st]) = true -> tick_frames (proj_script (script ++ [st])) < 2 ^ 31 ->
+    urun (syse_init cfg0 nclients) ug_init script = Ok (e1, g1, os1) -> syse_step e1 st = Ok (e, o) ->
+    emode (script ++ [st]) slot = MLive ->
+    forall ty q se, In (ty, q, Some se) (eo_got o) -> independent ty = false ->
+    exists cl tk, al_get slot (y_clients (e_sys e)) = Some cl /\ al_get se (cl_s2c cl) <> None /\ tk <= cl_upd_tick cl /\
+      forall ks, al_get se (client_struct cl) = Some ks ->
+        exists pre post y1 cl1 ks', proj_script (script ++ [st]) = pre ++ post /\ run (sys_init cfg0 nclients) pre = Ok y1 /\
+          forallb (fun b => negb (ends_session slot b)) post = true /\
+          find_client (y_server y1) slot = Some cl1 /\ sc_authorized cl1 = true /\
+          al_get se (struct_vis (y_server y1) cl1) = Some ks' /\ kinds_equiv ks ks' /\
+          cl_upd_tick cl = sv_tick (y_server y1) /\ tk <= sv_tick (y_server y1).
+  Proof.
+    intros st Hok Hb H1 Hs Hmode ty q se Hd Hdep.
+    destruct (e1_structure cfg0 nclients script slot ops emit e1 g1 os1 e o Hok Hb H1 Hs Hmode ty q (Some se) Hd Hdep)
+      as (cl & tk & m & Hcl & Hm & Etk & Hle & Hstruct).
+    exists cl, tk. split; [exact Hcl|]. split; [|split; [exact Hle|]].
+    - destruct (deliverable_some _ _ _ Hm) as [E Hres]. apply Hres. congruence.
+    - intros ks Hks. destruct Hstruct as [G|(pre & post & y1 & cl1 & A1 & A2 & A3 & A4 & A5 & A6 & A7 & A8)].
+      + specialize (G se). rewrite Hks in G. cbn [al_get] in G. destruct G.
+      + specialize (A6 se). rewrite Hks in A6. destruct (al_get se (struct_vis (y_server y1) cl1)) as [ks'|] eqn:E; [|destruct A6].
+        exists pre, post, y1, cl1, ks'. auto 10.
+  Qed.
+End E1ENT.
